@@ -894,14 +894,18 @@ class TmpPool:
         """
         Removes all created files from this pool and also the file system.
         """
-        for p in self._created_files:
+        # the list is emptied in place (item by item), because other processes share it and a new list would not be
+        # visible for them, thus files created by them later would never be removed
+        while True:
+            try:
+                p = self._created_files.pop()
+            except IndexError:
+                break
             try:
                 os.remove(p)
             except FileNotFoundError:
                 # already removed
                 pass
-
-        self._created_files = self._manager.list() if self._multi_proc else []
 
 
 class FilePool(Mapping[str, IO]):
